@@ -12,6 +12,10 @@ import PdbVerif.Proofs.Format
 import PdbVerif.Proofs.FormatXyz
 import PdbVerif.Proofs.FormatRoundtrip
 import PdbVerif.Proofs.FormatReexport
+import PdbVerif.Proofs.FormatCanonical
+import PdbVerif.Proofs.FormatExport
+import PdbVerif.Model.Export
+import PdbVerif.Spec.C02Canonical
 import PdbVerif.Proofs.Parse
 
 set_option linter.unusedVariables false
@@ -219,5 +223,85 @@ theorem reexport_value_drift_at_threshold :
     Gen._format_xyz ((1999999 : ℚ) / 2) = .ok " 1000000".toList ∧
     Gen._format_xyz (-(9999946 : ℚ) / 100) = .ok "-99999.5".toList ∧
     Gen._format_xyz (-(199999 : ℚ) / 2) = .ok " -100000".toList := by decide +kernel
+
+/-! ### 6. canonical records are reproduced -/
+
+/-- An ATOM record already in canonical form (`Spec.Canonical`: the purely syntactic column-by-column description in
+    Spec/C02Canonical.lean — plain right-aligned integers, the name aligned by the wwPDB rule, `%8.3f` coordinates in the
+    usual range, `%6.2f` occupancy and B-factor, non-blank chain and element) is parsed, and the row written back is the
+    same text in columns 1–66 and 77–78, whatever the model number and whatever stands in columns 67–76 and 79–80. -/
+theorem canonical_reproduced (l : Str) (m : Int) (h : Spec.Canonical l) :
+    ∃ r a l', Model.parseAtomLine l m = .ok r ∧ Atom.ofRow r = some a ∧ Gen.data2pdb_line a = .ok l' ∧
+      Spec.rawCols l' 1 66 = Spec.rawCols l 1 66 ∧ Spec.rawCols l' 77 78 = Spec.rawCols l 77 78 := by
+  obtain ⟨a, l', hp, hl, _, h1, h2, _, _⟩ := Proofs.Canon.canonical_reproduced l m h
+  exact ⟨a.toRow, a, l', by rw [Proofs.Parse.parseAtomLine_eq, hp], rfl, hl, h1, h2⟩
+
+/-- … and if the record has nothing in columns 67–76 and 79–80 the line written back is the record itself -/
+theorem canonical_reproduced_whole (l : Str) (m : Int) (h : Spec.Canonical l) (ht : Spec.tailBlank l = true) :
+    ∃ r a, Model.parseAtomLine l m = .ok r ∧ Atom.ofRow r = some a ∧ Gen.data2pdb_line a = .ok l := by
+  obtain ⟨a, l', hp, hl, hlen', h1, h2, h3, h4⟩ := Proofs.Canon.canonical_reproduced l m h
+  have hlen : l.length = 80 := (Proofs.Canon.canonical_unpack l h).1
+  unfold Spec.tailBlank at ht
+  simp only [Bool.and_eq_true] at ht
+  have t1 := Proofs.Canon.blank_spec _ ht.1
+  have t2 := Proofs.Canon.blank_spec _ ht.2
+  rw [Proofs.Canon.rawCols_length l 67 76 (by omega) (by omega) (by omega)] at t1
+  rw [Proofs.Canon.rawCols_length l 79 80 (by omega) (by omega) (by omega)] at t2
+  have whole : ∀ s : Str, s.length = 80 → s = Spec.rawCols s 1 66 ++ (Spec.rawCols s 67 76 ++
+      (Spec.rawCols s 77 78 ++ Spec.rawCols s 79 80)) := by
+    intro s hs
+    have h80 : Spec.rawCols s 1 80 = s := by unfold Spec.rawCols; simp [← hs]
+    rw [← Proofs.Canon.rawCols_split s 77 78 80 (by omega) (by omega) (by omega) (by omega),
+      ← Proofs.Canon.rawCols_split s 67 76 80 (by omega) (by omega) (by omega) (by omega),
+      ← Proofs.Canon.rawCols_split s 1 66 80 (by omega) (by omega) (by omega) (by omega), h80]
+  have : l' = l := by
+    rw [whole l' hlen', whole l hlen, h1, h2, h3, h4, t1, t2]
+  subst this
+  exact ⟨a.toRow, a, by rw [Proofs.Parse.parseAtomLine_eq, hp], rfl, hl⟩
+
+/-- the first two ATOM records of the bundled crystal structure `test/pdb/3CRO.pdb` (all 1856 ATOM records of that file
+    satisfy `Spec.isCanonical` when evaluated), and a record with altLoc, iCode, a leading-digit hydrogen name, negative
+    numbers and a segment identifier -/
+example : Spec.Canonical "ATOM      1  O5'  DA A   1     -16.851  -5.543  74.981  1.00 55.62           O  ".toList ∧
+    Spec.tailBlank "ATOM      1  O5'  DA A   1     -16.851  -5.543  74.981  1.00 55.62           O  ".toList = true ∧
+    Spec.Canonical "ATOM      2  C5'  DA A   1     -18.254  -5.683  75.238  1.00 51.97           C  ".toList ∧
+    Spec.Canonical "ATOM     17 1HG2BTHR A  -3C    -22.017  -0.441   6.607  0.50  0.00      SEGX H1+".toList := by
+  decide +kernel
+
+/-! ### 7. export to a file -/
+
+/-- the text `exportpdb` writes, read line by line, is the lines, each with its terminator -/
+theorem export_readlines (ls : List Str) (h : ∀ l ∈ ls, '\n' ∉ l) :
+    Model.readlines (Model.exportText ls) = ls.map (· ++ ['\n']) :=
+  Proofs.Export.readlines_exportText ls h
+
+/-- an appended export never glues records: the table of a file written in two exports is the table of the lines -/
+theorem export_append_no_glue (ls₁ ls₂ : List Str) (h₁ : ∀ l ∈ ls₁, '\n' ∉ l) (h₂ : ∀ l ∈ ls₂, '\n' ∉ l) :
+    Model.parse (Model.readlines (Model.exportText ls₁ ++ Model.exportText ls₂)) = Model.parse (ls₁ ++ ls₂) :=
+  Proofs.Export.parse_append_export ls₁ ls₂ h₁ h₂
+
+/-- Exporting a table that fits to a file and reading the file back gives one row per row, in order: the row read back
+    from its own line (`roundtrip`), which agrees with the original within the printed precision. -/
+theorem file_roundtrip (rows : List Atom)
+    (h : ∀ a ∈ rows, Spec.Fits a ∧ a.chainID ≠ [] ∧ Spec.CoordInRange a.x ∧ Spec.CoordInRange a.y ∧ Spec.CoordInRange a.z) :
+    ∃ ls, Model.data2pdb rows = .ok ls ∧ (∀ l ∈ ls, l.length = 80) ∧
+      Model.parse (Model.readlines (Model.exportText ls)) =
+        .ok (rows.map fun a => ({ Proofs.Line.readBack a with model := 0 }).toRow) ∧
+      ∀ a ∈ rows, Spec.readBackOK a { Proofs.Line.readBack a with model := 0 } (Proofs.Xyz.xyzClass a.x)
+        (Proofs.Xyz.xyzClass a.y) (Proofs.Xyz.xyzClass a.z) = true := by
+  obtain ⟨ls, hls, _, hall, hfa⟩ := Proofs.Export.data2pdb_lines rows h 0
+  refine ⟨ls, hls, fun l hl => (hall l hl).1, ?_, fun a _ => Proofs.Line.readBackOK_export a⟩
+  rw [Proofs.Export.parse_readlines_exportText ls (fun l hl => (hall l hl).2)]
+  exact Proofs.Export.parseLines_all_atoms ls _ 0 hfa
+
+example := file_roundtrip [demo, { demo with serial := 2, x := 1 }] (by
+  intro a ha
+  simp only [List.mem_cons, List.not_mem_nil, or_false] at ha
+  rcases ha with rfl | rfl
+  · exact demo_fits
+  · have h := demo_fits
+    unfold Spec.Fits Spec.CoordInRange demo at h ⊢
+    obtain ⟨⟨_, _, h3⟩, h4, _, h5⟩ := h
+    exact ⟨⟨by norm_num, by norm_num, h3⟩, h4, by norm_num, h5⟩)
 
 end Props.C02
